@@ -894,6 +894,16 @@ func TestC02(t *testing.T) {
 			} else {
 				collect(node)
 			}
+			if strings.Contains(hname, "IRIs") {
+				// an empty IRI in a list of IRIs may be written as the empty string or left out: both are what the list holds
+				var g2 []string
+				for _, g := range gotIDs {
+					if g != "" {
+						g2 = append(g2, g)
+					}
+				}
+				gotIDs = g2
+			}
 			if strings.Join(gotIDs, " ") != strings.Join(wantIDs, " ") {
 				r.Report("empties", cell, key+"members", fmt.Sprintf("written members %v, the list's members that have something to say are %v: %s", gotIDs, wantIDs, b), cell)
 			}
@@ -917,6 +927,41 @@ func TestC02(t *testing.T) {
 				}
 				done++
 				verify(cell, h.name, h.term, h.mk(l), names, wantIDs, len(cb), done)
+			}
+		}
+		// lists of IRIs under their own type (what ItemCollection.IRIs() hands out, with an empty IRI in the place of a nil member): on their
+		// own, in an item property, as a member of a list property
+		{
+			seqs := [][]string{{""}, {"", "A"}, {"A", ""}, {"A", "", "B"}, {"", "", "A"}, {"A", "", ""}, {"", "A", ""}, {"A", "B"}, {"-", "A"}}
+			for si, sq := range seqs {
+				var iris ap.IRIs
+				var wantIDs []string
+				for _, x := range sq {
+					switch x {
+					case "A":
+						iris = append(iris, "https://example.com/a")
+						wantIDs = append(wantIDs, "https://example.com/a")
+					case "B":
+						iris = append(iris, "https://example.com/b")
+						wantIDs = append(wantIDs, "https://example.com/b")
+					default:
+						iris = append(iris, ap.IRI(x))
+						if x == "-" {
+							wantIDs = append(wantIDs, "-")
+						}
+					}
+				}
+				for hi, x := range []interface{}{iris, &ap.Object{ID: id, Type: ap.NoteType, InReplyTo: iris}, &ap.Activity{ID: id, Type: ap.CreateType, Object: iris, Actor: ap.IRI("https://example.com/actor")}} {
+					total++
+					hname := []string{"IRIs", "Object.InReplyTo=IRIs", "Activity.Object=IRIs"}[hi]
+					cell := fmt.Sprintf("%s %q", hname, sq)
+					if !r.WantCell(cell) {
+						continue
+					}
+					done++
+					verify(cell, hname, []string{"", "inReplyTo", "object"}[hi], x, sq, wantIDs, len(sq), done)
+					_ = si
+				}
 			}
 		}
 		// the same for every item-typed and list-typed property of every type, the value holding everything else its type can hold:
